@@ -47,7 +47,7 @@ class Initialize(Gate):
             raise ValueError("The length of the state vector is not a positive power of 2.")
 
         # Check if probabilities (amplitudes squared) sum to 1
-        if not isclose(sum(np.absolute(params) ** 2), 1.0, abs_tol=1e-10):
+        if not isclose(sum(np.absolute(params) ** 2), 1.0, rel_tol=0.0, abs_tol=1e-10):
             raise ValueError("Sum of amplitudes-squared does not equal one.")
 
         self.num_qubits = int(self.num_qubits)
